@@ -1,3 +1,10 @@
 -- every property module (one line per property, kept sorted)
 import TRV.Props.C03
 import TRV.Props.C07
+import TRV.Props.C12
+import TRV.Props.C15
+import TRV.Props.C16
+import TRV.Props.C17
+import TRV.Props.C18
+import TRV.Props.C19
+import TRV.Props.C20
